@@ -4,6 +4,7 @@ import (
 	"bytes"
 	"fmt"
 	"strings"
+	"unicode/utf8"
 
 	"github.com/hashicorp/go-bexpr/grammar"
 
@@ -106,6 +107,9 @@ func c16Literal(c *mon.Ctx, s string, style int, r *xgen.Renderer) {
 		// a backtick literal is a Go raw string: carriage returns inside it
 		// are not part of the string it denotes
 		k := r.R.Intn(len(s) + 1)
+		for k < len(s) && !utf8.RuneStart(s[k]) {
+			k++
+		}
 		txt = "`" + s[:k] + "\r" + s[k:] + "`"
 		c.Count("lit:backtick-with-carriage-return")
 	}
